@@ -93,13 +93,13 @@ let content_of (t : tok) : tok list =
 
 (* ---- model side ---- *)
 let cur_ents = ref infix_entries
-let kk = infix_lbp
+let cur_kk = ref infix_lbp
 
 exception Outcome of string
 
 let rec led_err (t : tok) : bool =
   match t with
-  | TArr _ -> (match norm_selector !cur_ents kk led_err (content_of t) with RErr -> true | _ -> false)
+  | TArr _ -> (match norm_selector !cur_ents !cur_kk led_err (content_of t) with RErr -> true | _ -> false)
   | _ -> false
 
 let last_opt (l : tok list) : tok option = match List.rev l with [] -> None | x :: _ -> Some x
@@ -109,10 +109,10 @@ let rec pm (eof : tok option) (x : tok tree) : string =
   match x with
   | Leaf t -> print_tok t
   | Eof -> eofs ()
-  | Bin (o, l, r) -> "(" ^ str (led_head !cur_ents kk o) ^ " " ^ pm eof l ^ " " ^ pm eof r ^ ")"
+  | Bin (o, l, r) -> "(" ^ str (led_head !cur_ents !cur_kk o) ^ " " ^ pm eof l ^ " " ^ pm eof r ^ ")"
   | Pre (o, a) -> "(" ^ str (nud_head !cur_ents o) ^ " " ^ pm eof a ^ ")"
   | Post (o, a) ->
-    (match led_of !cur_ents kk o with
+    (match led_of !cur_ents !cur_kk o with
      | Some LIndex -> "(arrayidx " ^ pm eof a ^ " " ^ model_selector o ^ ")"
      | Some LDotIdx -> "(hashidx " ^ pm eof a ^ " " ^ print_tok o ^ ")"
      | Some (LPostfix h) -> "(" ^ str h ^ " " ^ pm eof a ^ ")"
@@ -123,7 +123,7 @@ let rec pm (eof : tok option) (x : tok tree) : string =
   | CondStale (_, c, t) -> "(cond " ^ pm eof c ^ " " ^ pm eof t ^ " " ^ eofs () ^ ")"
 and model_selector (o : tok) : string =
   let ts = split_colon_tail (content_of o) in
-  match norm_selector !cur_ents kk led_err (content_of o) with
+  match norm_selector !cur_ents !cur_kk led_err (content_of o) with
   | ROk (SelRaw l) -> "[" ^ String.concat " " (List.map print_tok l) ^ "]"
   | ROk (SelIdx x) -> "[" ^ pm (last_opt ts) x ^ "]"
   | ROk (SelSlice (a, b)) ->
@@ -171,13 +171,13 @@ let print_for (eof : tok option) (f : forform) : string =
       s (pmc src) n s (lab l) i i n i i (String.concat " " items)
 
 let for_obs (ts : tok list) : string =
-  match parse_block_for !cur_ents kk for_consts led_err is_body body_empty ts with
+  match parse_block_for !cur_ents !cur_kk for_consts led_err is_body body_empty ts with
   | ROk xs -> String.concat " ;; " (List.map (function SExpr x -> pm (last_opt ts) x | SFor f -> print_for (last_opt ts) f) xs)
   | RErr -> "ERR" | RCrash -> "PANIC" | RUnsup -> "UNSUP" | RFuel -> "FUEL"
 
 let model_obs (ts : tok list) : string =
   try
-    match m_parse_block !cur_ents kk led_err ts with
+    match m_parse_block !cur_ents !cur_kk led_err ts with
     | ROk xs -> String.concat " ;; " (List.map (pm (last_opt ts)) xs)
     | RErr -> "ERR" | RCrash -> "PANIC" | RUnsup -> for_obs ts | RFuel -> "FUEL"
   with Outcome s -> s
@@ -211,9 +211,9 @@ and spec_selector (o : tok) : string =
    from the source, proved index-safe) printed with the documented expansion templates
    (print_for: := defines, = assigns); a malformed header must give an error *)
 let spec_for (ts : tok list) : string =
-  match m_parse_block !cur_ents kk led_err ts with
+  match m_parse_block !cur_ents !cur_kk led_err ts with
   | RUnsup ->
-    (match parse_block_for !cur_ents kk for_consts led_err is_body body_empty ts with
+    (match parse_block_for !cur_ents !cur_kk for_consts led_err is_body body_empty ts with
      | ROk _ -> for_obs ts
      | RErr | RCrash -> "ERR"
      | _ -> "-")
@@ -235,5 +235,15 @@ let () =
       let (ts, rest) = parse_items ws in
       if rest <> [] then failwith ("unbalanced tokens: " ^ body);
       let m = model_obs ts and sp = spec_obs ts in
-      Printf.printf "%s\t%s\t%s\n" id (esc_final m) (esc_final sp)
+      (* attribution to the known finding other-literal-starts-statement: the model with the
+         suggested repair (LeftBindingPower returns 0 for every other type) equals the specification *)
+      let tag =
+        if sp = "-" || sp = m || infix_lbp.lbp_other <> None then ""
+        else begin
+          cur_kk := { infix_lbp with lbp_other = Some Z0 };
+          let m' = model_obs ts in
+          cur_kk := infix_lbp;
+          if m' = sp then "other-literal-starts-statement" else ""
+        end in
+      Printf.printf "%s\t%s\t%s\t%s\n" id (esc_final m) (esc_final sp) tag
     | _ -> failwith ("bad line: " ^ line))
